@@ -234,6 +234,31 @@ ChainMsgs ==
          pt \in {12, 19}, pt2 \in {12, 19, 35, 39} }
 ChainStarts == <<19, 35, 51>>
 
+\* Family M: sections of two or three records of mixed classes (CH, HS, NONE,
+\* ANY next to IN) and types, with RDATA the type rejects, with a type the
+\* specification does not know, and with a broken owner: what the typed
+\* views (limit_to, limit_to_in, into_records) select from and stumble over
+RecC(owner, t, class, ttl, rd, delta) ==
+  owner \o RFix(t, class, 0, ttl, Max(Len(rd) + delta, 0)) \o rd
+MRecs == { RecC(<<192, 12>>, T_A, 1, 1, <<10, 0, 0, 1>>, 0),
+           RecC(<<192, 12>>, T_A, 3, 2, <<10, 0, 0, 2>>, 0),
+           RecC(<<1, 98, 0>>, T_A, 254, 3, <<10, 0, 0>>, 0),
+           RecC(<<192, 12>>, T_A, 1, 4, <<10, 0, 0>>, 0),
+           RecC(<<192, 12>>, T_CNAME, 4, 5, <<1, 98, 0>>, 0),
+           RecC(<<192, 12>>, T_CNAME, 1, 6, <<1, 99, 192, 12>>, 0),
+           RecC(<<0>>, T_AAAA, 255, 7, F(16, 9), 0),
+           RecC(<<192, 12>>, 16, 3, 8, <<1, 97>>, 0),
+           RecC(<<192, 12>>, 16, 1, 9, <<5, 97>>, 0),
+           RecC(<<192, 12>>, T_MX, 1, 10, <<0, 5, 192, 12, 7>>, 0),
+           RecC(<<0>>, T_OPT, 1232, 0, <<0, 10, 0, 1, 7>>, 0),
+           RecC(<<192, 60>>, T_A, 1, 11, <<10, 0, 0, 3>>, 0) }
+HM == { <<32768, 1, 3, 0, 0>>, <<32768, 1, 2, 1, 0>>, <<32768, 1, 1, 1, 1>> }
+        \cup (IF Big THEN { <<43008, 1, 0, 1, 2>> } ELSE {})
+\* the third record: every alternative in the thorough tier, four of them otherwise
+MRecs3 == IF Big THEN MRecs
+          ELSE { RecC(<<192, 12>>, T_A, 3, 2, <<10, 0, 0, 2>>, 0), RecC(<<192, 12>>, T_A, 1, 4, <<10, 0, 0>>, 0),
+                 RecC(<<0>>, T_OPT, 1232, 0, <<0, 10, 0, 1, 7>>, 0), RecC(<<192, 60>>, T_A, 1, 11, <<10, 0, 0, 3>>, 0) }
+
 TTypes == {47, 50, 51, 16, 13, 64, 65, 45, 250, 46, 35, 257, 48, 43, 33, 63, 52, 44, 61, 10, 39, 17, 14}
 HT == { <<32768, 1, 1, 0, 0>>, <<32768, 1, 0, 0, 1>> }
 
@@ -260,6 +285,7 @@ Phase1 ==
      \/ \E k \in 0..2 : sel' = <<"E", k>>
      \/ \E h \in HT, k \in 0..3 : sel' = <<"K", h, k>>
      \/ sel' = <<"C">>
+     \/ \E h \in HM, r1 \in MRecs : sel' = <<"M", h, r1>>
 
 Finish(msg) == ph' = 2 /\ m' = msg /\ nw' = NWInit(msg) /\ UNCHANGED sel
 
@@ -301,6 +327,9 @@ Phase2 ==
      \/ /\ sel[1] = "C"
         /\ \E cm \in ChainMsgs :
               /\ ph' = 2 /\ m' = cm /\ nw' = NWInit(m') /\ sel' = <<"Ldone", ChainStarts>>
+     \/ /\ sel[1] = "M"
+        /\ \E r2 \in MRecs, r3 \in MRecs3 :
+              Finish(Hdr(sel[2]) \o <<1, 97, 0, 0, 1, 0, 1>> \o sel[3] \o r2 \o r3)
      \/ /\ sel[1] = "E"
         /\ \E e \in {x \in EdnsMsgs : Len(x) % 3 = sel[2]} : Finish(e)
      \/ /\ sel[1] = "J"          \* RDLENGTH covering exact / padded / cut RDATA, every type of the new API
